@@ -21,6 +21,8 @@ def run(ctx):
     lib_gatefn.gate_dispatch(ctx, P)
     lib_gatefn.gate_spec(ctx, P)
     lib_gatefn.gate_loops(ctx, P)
+    from . import lib_kind3
+    lib_kind3.error_codes(ctx, P)
     gate = set(lib_gatefn.GATE_FUNCS) | {"check_offsets", "tsk_treeseq_init"}
     seen = lib_guards.analyse(ctx, P, funcs=gate)
     lib_guards.presence(ctx, seen, funcs=gate, P=P)
